@@ -221,7 +221,20 @@ def prefix_rule(ctx):
     d = "prefix classification not found"
     if pr:
         c = sir.expr_str(pr[0]["init"]["cond"]).replace(" ", "")
-        ok = c == "segs.len()<=1&&attr_name.name.len()>0"
+        import guards as gd
+        atoms = gd._conj(pr[0]["init"]["cond"], True)
+        seg_ok = name_ok = False
+        extra = 0
+        for kind, subj, pol in atoms:
+            t = sir.expr_str(subj).replace(" ", "") if kind == "cond" else ""
+            et = sir.emptiness_test(subj) if kind == "cond" else None
+            if pol and t in ("segs.len()<=1", "segs.len()<2", "2>segs.len()", "1>=segs.len()"):
+                seg_ok = True
+            elif et and "attr_name.name" in et[0] and (et[1] == pol):
+                name_ok = True
+            else:
+                extra += 1
+        ok = seg_ok and name_ok and extra == 0
         els = pr[0]["init"].get("else")
         inv = els is not None and "AttrPrefixKind::Invalid" in sir.expr_str(els["stmts"][-1]["e"] if els.get("k") == "block" else els)
         ok = ok and inv
@@ -263,6 +276,11 @@ def entity_rule(ctx):
                         rs.append((x["lo"].get("v"), x["hi"].get("v")))
                 if rs:
                     sets.append(sorted(rs))
+    # the same classes spelled with the standard ASCII predicates (in the scanner, its helpers, or closures handed to a helper)
+    STD = {"is_ascii_hexdigit": [("0", "9"), ("A", "F"), ("a", "f")], "is_ascii_digit": [("0", "9")], "is_ascii_alphabetic": [("A", "Z"), ("a", "z")]}
+    for n in sir.walk_reach(tc, f, 2):
+        if n.get("k") == "mcall" and n["m"] in STD and not n["args"]:
+            sets.append(STD[n["m"]])
     want_hex = [("0", "9"), ("A", "F"), ("a", "f")]
     want_dec = [("0", "9")]
     want_name = [("A", "Z"), ("a", "z")]
